@@ -41,6 +41,8 @@ type vgen struct {
 	// generated histories: how many more Run exits may be followed by a supervisor restart (each one waits out the
 	// supervisor's own back-off, 0.25-0.75 s), and one in how many exits is
 	restarts, restartOneIn int
+	// ... and how many more generated cases may start with a failing first block query (same back-off), one in how many
+	startErrs, startErrOneIn int
 }
 
 func (g *vgen) hash(prefix byte) ethCommon.Hash {
@@ -175,9 +177,13 @@ func (c *vCase) startLine(gsErr bool) bool {
 	if tag == "" {
 		tag = "-"
 	}
-	c.emit(fmt.Sprintf("start %s contract=%s chain=%d dev=%d wait=%d %s gserr=%d topic=%s tag=%s sub=%s exit=%s stuck=%s", c.id,
-		hex.EncodeToString(c.contract[:]), uint16(c.chain), b(c.dev), b(c.wait), c.headsCanon(), b(gsErr),
-		hex.EncodeToString(LogMessagePublishedTopic[:]), tag, sub, ex, st))
+	tried := c.tried
+	if tried == "" {
+		tried = "-"
+	}
+	c.emit(fmt.Sprintf("start %s contract=%s chain=%d dev=%d wait=%d %s gserr=%d pe=%d nn=%d topic=%s tag=%s tried=%s sub=%s exit=%s stuck=%s", c.id,
+		hex.EncodeToString(c.contract[:]), uint16(c.chain), b(c.dev), b(c.wait), c.headsCanon(), b(gsErr), c.startPe, b(c.startNN),
+		hex.EncodeToString(LogMessagePublishedTopic[:]), tag, tried, sub, ex, st))
 	return ok
 }
 
@@ -187,6 +193,11 @@ func (g *vgen) wsCase(t *testing.T, i int) {
 	r := g.r
 	c := g.newCase(t, fmt.Sprintf("ws%d", i))
 	gsErr := r.Intn(60) == 0
+	if !gsErr && g.startErrs > 0 && r.Intn(g.startErrOneIn) == 0 {
+		// the block poller's very first query fails (the supervisor runs the poller again after its back-off)
+		g.startErrs--
+		c.startPe, c.startNN = 1, r.Intn(2) == 0
+	}
 	ok := c.startLine(gsErr)
 	defer c.stop()
 	if !ok {
@@ -216,7 +227,7 @@ func (g *vgen) wsCase(t *testing.T, i int) {
 				break
 			}
 			g.restarts--
-			c.opRestart(false, pick)
+			c.opRestart(false, 0, false, pick)
 			continue
 		}
 		pend, en := c.pendingSnapshot()
@@ -316,6 +327,11 @@ func (g *vgen) wsCase(t *testing.T, i int) {
 			}
 			c.opHead(lat, pe, r.Intn(2) == 0, pick)
 		case 2, 4: // re-observation request
+			if !en && c.flushed && r.Intn(3) == 0 {
+				// ... during which the node changes branch (the poller is off and idle: every head query is the re-observation's)
+				c.opReorgReobs(g.reorgReobs(c, W), pick)
+				break
+			}
 			c.opReobs(g.reobs(c, truth, choice == 4, en, W), pick)
 		case 5: // a new message is logged while the watcher is processing a head at which a pending message has reached its depth
 			keys := make([]pendingKey, 0, len(pend))
@@ -734,10 +750,15 @@ func (g *vgen) restartCases(t *testing.T, quick bool) {
 		}
 		if c.exited != "" && c.stuck == "" {
 			if s.twice {
-				c.opRestart(true, pick)
+				c.opRestart(true, 0, false, pick)
 			}
 			if c.stuck == "" {
-				c.opRestart(false, pick)
+				// (one scenario: the restarted incarnation's poller fails its first block query and is run again)
+				pe := 0
+				if s.twice || (!quick && i%4 == 1) {
+					pe = 1
+				}
+				c.opRestart(false, pe, i%2 == 1, pick)
 			}
 			// the poller of the new incarnation is off until the next log arrives
 			W += 2
@@ -804,6 +825,215 @@ func (g *vgen) finReobsCases(t *testing.T) {
 				c.stop()
 			}
 		}
+	}
+}
+
+// vRelocate: the same logs as they appear in the receipt of another block.
+func vRelocate(logs []*ethTypes.Log, bh ethCommon.Hash, bn uint64) []*ethTypes.Log {
+	out := make([]*ethTypes.Log, len(logs))
+	for i, l := range logs {
+		if l != nil {
+			x := *l
+			x.BlockHash, x.BlockNumber = bh, bn
+			out[i] = &x
+		}
+	}
+	return out
+}
+
+// a generated re-observation request during which the node changes branch (see vReorg): any position of the change among
+// the request's RPC requests, the transaction gone / re-mined in another block (0..3 higher) / failed there / untouched, the
+// heads moving up (just past the depth the message needs, a little, a lot) or down.
+func (g *vgen) reorgReobs(c *vCase, W uint64) vReorg {
+	r := g.r
+	ro := g.reobs(c, nil, false, true, W)
+	for ro.rc.kind != "r" || ro.rc.bn == nil {
+		ro = g.reobs(c, nil, false, true, W)
+	}
+	x := vReorg{tx: ro.tx, k: r.Intn(5), rcA: ro.rc, btA: ro.bt, rcB: vRcAns{kind: "null"}, btB: vBtAns{kind: "null"}}
+	bn := *ro.rc.bn
+	moved := func(status uint64) {
+		nb := bn + uint64(r.Intn(4))
+		bh := g.hash(0xbc)
+		x.rcB = vRcAns{kind: "r", status: status, bh: bh, bn: &nb, logs: vRelocate(ro.rc.logs, bh, nb)}
+		x.btB = vBtAns{kind: "ok", t: ro.bt.t + 12}
+		if ro.bt.kind != "ok" {
+			x.btB.t = uint64(1600000000 + r.Intn(100000000))
+		}
+	}
+	switch g.pick(5, 3, 2, 1) {
+	case 1:
+		moved(1)
+	case 2:
+		x.rcB, x.btB = x.rcA, x.btA
+	case 3:
+		moved(0)
+	}
+	// heads after the change
+	maxCl := uint64(0)
+	if c.wait {
+		for _, l := range ro.rc.logs {
+			if l != nil && l.Address == c.contract && len(l.Data) >= 160 {
+				if cl := uint64(l.Data[159]); cl > maxCl {
+					maxCl = cl
+				}
+			}
+		}
+	}
+	lat := c.lat
+	switch g.pick(5, 3, 2, 2, 1) {
+	case 0: // the watched head lands at the depth the deepest-waiting message needs (or just around it)
+		gap := c.lat - W
+		tgt := bn + maxCl + uint64(r.Intn(3))
+		if r.Intn(4) == 0 && tgt > 0 {
+			tgt--
+		}
+		lat = tgt + gap
+	case 1:
+		lat += uint64(1 + r.Intn(5))
+	case 2:
+		d := uint64(1 + r.Intn(3))
+		if lat > d {
+			lat -= d
+		}
+	case 3:
+		lat += uint64(30 + r.Intn(300))
+	}
+	x.latB = lat
+	return x
+}
+
+// fixed scenarios: the poller's very first block query fails on a chain read at finalized height (dev mode = the same chain read
+// at latest height, as control). Finalized 100 / latest 132. A message is logged in block 105 (not final); finality advances
+// to 101 (must wait), a re-observation request names a transaction in block 104 (not final either: must be ignored), finality
+// reaches 105 and 106: the message is forwarded where its depth is reached under the FINALIZED head, exactly once.
+func (g *vgen) finStartCases(t *testing.T, quick bool) {
+	type sc struct{ dev, wait, nn bool }
+	scs := []sc{{false, false, false}, {false, true, true}, {true, false, false}}
+	if !quick {
+		scs = append(scs, sc{false, false, true}, sc{false, true, false}, sc{true, true, true})
+	}
+	for i, s := range scs {
+		if g.stuck >= 3 {
+			return
+		}
+		c := &vCase{t: t, g: g, id: fmt.Sprintf("fs%d", i), chain: vaa.ChainIDEthereum, dev: s.dev, wait: s.wait, gapF: 32, gapS: 16,
+			startPe: 1, startNN: s.nn}
+		g.r.Read(c.contract[:])
+		c.lat = 132
+		if !c.startLine(false) {
+			c.stop()
+			continue
+		}
+		m := g.msgSpec()
+		m.cl = 1
+		l := vLogSpec{tx: g.hash(0xaa), bh: g.hash(0xbb), bn: 105, m: m, bt: vBtAns{kind: "ok", t: 1700000105}}
+		c.opLog(l, g.goodAnswer)
+		step := func(f func()) {
+			if !c.dead() {
+				f()
+			}
+		}
+		step(func() { c.opHead(133, 0, false, g.goodAnswer) })
+		step(func() {
+			bn := uint64(104)
+			m2 := g.msgSpec()
+			m2.cl = 0
+			bh := g.hash(0xbb)
+			ro := vReobs{tx: g.hash(0xaa), bt: vBtAns{kind: "ok", t: 1700000104}}
+			var st ethCommon.Hash
+			copy(st[12:], m2.sender[:])
+			ro.rc = vRcAns{kind: "r", status: 1, bh: bh, bn: &bn, logs: []*ethTypes.Log{{Address: c.contract,
+				Topics: []ethCommon.Hash{LogMessagePublishedTopic, st}, Data: vPackData(m2), BlockNumber: bn, TxHash: ro.tx, BlockHash: bh}}}
+			c.opReobs(ro, g.goodAnswer)
+		})
+		for _, lat := range []uint64{137, 138, 139} {
+			lat := lat
+			step(func() { c.opHead(lat, 0, false, g.goodAnswer) })
+		}
+		if c.stuck != "" {
+			g.stuck++
+		}
+		c.stop()
+	}
+}
+
+// fixed scenarios: re-observation requests during which the node changes branch. One Run per configuration; per scenario a
+// fresh transaction T with one message (cl 2) and a change of branch after k = 0..3 of the request's RPC requests:
+//   profile 0 - T not deep enough before the change (on the chain read at finalized height: in a block above the finalized
+//               head), the head beyond T's depth after it;
+//   profile 1 - T deep enough before the change, the head below T's depth after it;
+//   profile 2 - not deep enough before or after;
+// after the change T is gone (orphaned) or re-mined one block higher. Heights grow from scenario to scenario so that no head
+// served earlier in the case reaches a later scenario's depth.
+func (g *vgen) reorgReobsCases(t *testing.T) {
+	type cfg struct {
+		chain vaa.ChainID
+		wait  bool
+		gap   uint64
+	}
+	for ci, cf := range []cfg{{vaa.ChainIDBSC, true, 0}, {vaa.ChainIDEthereum, false, 8}, {vaa.ChainIDEthereum, true, 8}, {vaa.ChainIDBSC, false, 0}} {
+		if g.stuck >= 3 {
+			return
+		}
+		c := &vCase{t: t, g: g, id: fmt.Sprintf("rr%d", ci), chain: cf.chain, wait: cf.wait, gapF: cf.gap, gapS: cf.gap / 2}
+		g.r.Read(c.contract[:])
+		c.lat = 900 + cf.gap
+		if !c.startLine(false) {
+			c.stop()
+			continue
+		}
+		conf := uint64(0)
+		if cf.wait {
+			conf = 2
+		}
+		i := uint64(0)
+		for _, profile := range []int{0, 1, 2} {
+			for _, gone := range []bool{true, false} {
+				for k := 0; k <= 3; k++ {
+					if c.dead() {
+						break
+					}
+					base := 1000 + 20*i
+					i++
+					c.opHead(base+cf.gap, 0, false, g.goodAnswer)
+					if c.dead() {
+						break
+					}
+					bn := base
+					if cf.gap > 0 {
+						bn = base + 1
+					}
+					wb := bn + conf + 1
+					switch profile {
+					case 1:
+						bn = base - conf - 1
+						wb = bn + conf - 1
+					case 2:
+						wb = bn + conf - 1
+					}
+					m := g.msgSpec()
+					m.cl = 2
+					tx, bh := g.hash(0xaa), g.hash(0xbb)
+					var st ethCommon.Hash
+					copy(st[12:], m.sender[:])
+					logs := []*ethTypes.Log{{Address: c.contract, Topics: []ethCommon.Hash{LogMessagePublishedTopic, st}, Data: vPackData(m),
+						BlockNumber: bn, TxHash: tx, BlockHash: bh}}
+					x := vReorg{tx: tx, k: k, rcA: vRcAns{kind: "r", status: 1, bh: bh, bn: &bn, logs: logs}, btA: vBtAns{kind: "ok", t: 1700000000 + bn},
+						rcB: vRcAns{kind: "null"}, btB: vBtAns{kind: "null"}, latB: wb + cf.gap}
+					if !gone {
+						nb, bh2 := bn+1, g.hash(0xbc)
+						x.rcB = vRcAns{kind: "r", status: 1, bh: bh2, bn: &nb, logs: vRelocate(logs, bh2, nb)}
+						x.btB = vBtAns{kind: "ok", t: 1700000012 + bn}
+					}
+					c.opReorgReobs(x, g.goodAnswer)
+				}
+			}
+		}
+		if c.stuck != "" {
+			g.stuck++
+		}
+		c.stop()
 	}
 }
 
@@ -1115,8 +1345,10 @@ func TestVerifEvm(t *testing.T) {
 		nWs, _ = strconv.Atoi(v)
 	}
 	g.restarts, g.restartOneIn = 4, 3
+	g.startErrs, g.startErrOneIn = 3, 60
 	if tier == "thorough" {
 		g.restarts, g.restartOneIn = 150, 4
+		g.startErrs, g.startErrOneIn = 60, 40
 	}
 	g.directCases(t, nDirect)
 	g.w.Flush()
@@ -1125,6 +1357,8 @@ func TestVerifEvm(t *testing.T) {
 		g.zeroHeadCases(t)
 		g.raceCases(t)
 		g.finReobsCases(t)
+		g.finStartCases(t, tier != "thorough")
+		g.reorgReobsCases(t)
 		g.restartCases(t, tier != "thorough")
 	}
 	for i := 0; i < nWs && g.stuck < 3; i++ {
